@@ -27,7 +27,8 @@ RULE_TEXT = ("one run = one seeded plan (router MIB, 0-4 sequential set-up opera
              "GBC / GUC to a known or unknown destination / SHB through BTP, deliver reference-encoded frames (GBC inside the area with "
              "RHL>=2, its exact duplicate, LS reply, LS request for the router, SHB, TSB, GUC to forward), position reports) executed "
              "by real threads under a seeded pre-emptive scheduler (uniform random switches p in {0.5,2,10}%, PCT with 1-3 priority "
-             "change points, or one forced pre-emption followed by run-to-completion); every armed CBF / LS timer is one more thread "
+             "change points, one forced pre-emption followed by run-to-completion, switches at lock boundaries only, or race-directed: coins "
+             "right after stores to the shared router / location-table state); every armed CBF / LS timer is one more thread "
              "that may start at any later point; non-trivial = at least one pre-emption or lock contention happened; distinct = "
              "distinct hashes of (operation kinds, context-switch sequence)")
 COMPONENTS = {"real": ["geonet.Router (request, indicate, CBF, LS, sequence numbers, ego PV)", "geonet.LocationTable + entries",
@@ -43,13 +44,20 @@ ASSUMPTIONS = ["pre-emption granularity is one bytecode instruction of router.py
                "reply was processed in between and a concurrent request had opened a new lookup: counted as a probe), unless a later request "
                "for the same destination was flushed by a reply while the earlier one vanished",
                "LS retransmissions that continue after the reply (timer callback already running when the reply is processed) do not contradict the statement; they are counted as a probe",
-               "position-vector fields are attributed to position reports with a tolerance of one unit; a field that matches no report is a probe, not a verdict"]
+               "position-vector fields are attributed to position reports with a tolerance of one unit; a field that matches no report is a probe when "
+               "it is within two units (2 s for the timestamp) of some report, and the verdict pv-never-ego beyond that",
+               "a CBF timer on which cancel() was called must not transmit afterwards, unless the same packet was buffered again in between "
+               "(the old callback then sends on behalf of the new entry; counted as a probe)"]
 EXPECTED_PROBES = ["two-threads-in-get-sequence-number", "cbf-buffered", "cbf-expiry-raced-cancel", "cbf-cancelled-before-expiry",
                    "cbf-expired-and-sent", "ls-reply-raced-retransmit", "ls-giveup", "ls-flushed-after-reply", "gnss-raced-origination",
                    "lock-contended", "preemption-inside-lock-free-region", "timer-started-while-actors-running",
-                   "strategy:random", "strategy:pct", "strategy:one", "strategy:sync-only"]
+                   "strategy:random", "strategy:pct", "strategy:one", "strategy:sync-only", "strategy:store",
+                   "preemption-after-shared-store", "cbf-cancelled-timer-checked"]
 
 T0_US = 1_767_225_600_000_000
+# attributes whose stores are pre-emption targets of the "store" schedules (router / location table state of the property anchors)
+SHARED_ATTRS = ("ego_position_vector", "sequence_number", "_cbf_buffer", "_ls_timers", "_ls_retransmit_counters", "_ls_packet_buffers",
+                "ls_pending", "loc_t", "position_vector", "is_neighbour")
 
 
 # ------------------------------------------------------------------------------------------ plan generation
@@ -267,6 +275,8 @@ def gen_plan(run_seed: int, tier: str) -> dict:
             ops.append(dict(req("guc", U1), th=max(o["th"] for o in ops) + 1))
         cfg["focus"] = "pair:" + pat
     sched = S.sync_only_variant(run_seed, S.draw_strategy(r), focus_names=("_ls_lock", "_cbf_lock", "sequence_number_lock", "ego_position_vector_lock", "loc_t_lock"))
+    # race-directed share (own PRNG stream): coins right after writes to the shared state named in the property anchors
+    sched = S.store_variant(run_seed, sched, names=SHARED_ATTRS)
     return {"engine": ENGINE, "property": ID, "config": cfg, "pre": pre, "ops": ops, "sched": sched, "sched_seed": r.getrandbits(32)}
 
 
@@ -537,7 +547,24 @@ class _Run:
                 else:
                     match[f] = {i for i, c in enumerate(cands) if abs(so[f] - c[f]) <= tol[f]}
             if any(not m for m in match.values()):
-                self.probe("pv-field-unmatched")
+                # a field that is the value of no position report.  Within two units (2 s for the timestamp) of some report it may be
+                # rounding of the conversion (probe); further away the packet carries a position vector that never was the ego position
+                def dev(f, c):
+                    if f == "tst":
+                        return min((so[f] - c[f]) % (1 << 32), (c[f] - so[f]) % (1 << 32)) / 1000.0
+                    d = abs(so[f] - c[f])
+                    return min(d % 3600, -d % 3600) if f == "heading" else d
+                far = {f: min(dev(f, c) for c in cands) for f, m in match.items() if not m}
+                far = {f: d for f, d in far.items() if d > 2}
+                if far:
+                    self.violate("pv-never-ego", origin(t),
+                                 f"{rc.ptype(t['p'])} emitted by {origin(t)} at step {t['step']} carries a source position vector that was "
+                                 f"never the ego position: " + ", ".join(f"{f}={so[f]} (nearest report off by {d:g}{' s' if f == 'tst' else ''})"
+                                                                         for f, d in sorted(far.items())) +
+                                 f"; the {len(cands)} position reports of the run: " +
+                                 ", ".join(f"#{i}(lat={c['lat']},lon={c['lon']},speed={c['speed']},heading={c['heading']})" for i, c in enumerate(cands))[:400])
+                else:
+                    self.probe("pv-field-unmatched")
                 continue
             common = set.intersection(*match.values())
             if not common:
@@ -575,6 +602,24 @@ class _Run:
                 self.probe("cbf-cancelled-before-expiry")
             if len(sent) > 1:
                 self.violate("cbf-sent-twice", "cbf-timer", f"one CBF timer transmitted {len(sent)} frames for sn={key[1]}")
+        # a CBF timer on which cancel() was called never transmits afterwards: whoever cancels it has taken it out of the buffer under
+        # the buffer lock first, so its expiry callback - even one that has already begun - must find the packet gone.  (Excused when the
+        # same packet was buffered again in between: the old callback may then send on behalf of the new entry, still once.)
+        for a in infos:
+            tm = a["tm"]
+            if tm.cancel_seq is None:
+                continue
+            self.probe("cbf-cancelled-timer-checked")
+            late = [t for t in a["sent"] if t["seq"] > tm.cancel_seq]
+            if not late:
+                continue
+            if any(b is not a and b["key"] == a["key"] and a["created"] < b["created"] < late[0]["seq"] for b in infos):
+                self.probe("cbf-cancelled-timer-sent-for-rebuffered-packet")
+                continue
+            self.violate("cbf-sent-after-cancel", "cancelled-timer‖timer:cbf_timeout",
+                         f"the CBF timer of GBC sn={a['key'][1]} of {a['key'][0].hex()} (created at log position {a['created']}) was taken out of "
+                         f"the buffer and cancelled at position {tm.cancel_seq} (its callback had started at {a['start']}); it still "
+                         f"transmitted the packet at position {late[0]['seq']}")
         for i, a in enumerate(infos):
             for b in infos[i + 1:]:
                 if a["key"] == b["key"] and a["sent"] and b["sent"] and a["start"] is not None and b["start"] is not None \
@@ -710,6 +755,8 @@ class _Run:
             self.probe("preemption-while-holding-lock", sc.preempt_held)
         if sc.preempt_sync:
             self.probe("preemption-at-lock-boundary", sc.preempt_sync)
+        if getattr(sc, "preempt_store", 0):
+            self.probe("preemption-after-shared-store", sc.preempt_store)
 
     # ---------------------------------------------------------------- result
     def result(self) -> dict:
